@@ -79,7 +79,7 @@ def gen_case(rng, big=False):
         out = []
         for _ in range(rng.choice((0, 0, 0, 1, 1, 2, pmax))):
             cnt[0] += 1
-            out.append([rng.randrange(nm), rng.random() < 0.8, f"t{cnt[0]}"])
+            out.append([rng.randrange(nm), rng.random() < 0.8, f"t{cnt[0]}", rng.random() < 0.8])
         return out
     rows = max(1, n_raw // interval + 2)
     dens = rng.choice((0.0, 0.1, 0.3, 0.7))
@@ -100,7 +100,7 @@ def gen_case(rng, big=False):
                 o = ops()
                 if o:
                     sc["open"].append([r_, m, o])
-            if rng.random() < dens / 3:
+            if markets[m]["kind"] != "uni" and rng.random() < dens / 3:
                 cnt[0] += 1
                 sc["upd"].append([r_, m, [f"u{cnt[0]}"] + ([f"u{cnt[0]}b"] if rng.random() < 0.3 else [])])
     return {"interval": interval, "istr": istr, "markets": markets, "prices": prices, "specs": specs, "script": sc}
@@ -127,13 +127,20 @@ def run_impl(case):
         return cl.sec(a._currents.timestamp)
 
     def do_ops(hook, ops):
-        for m, ok, tag in ops:
+        for m, ok, tag, gated in ops:
+            if not gated:
+                try:
+                    ms[m].free_op(tag, ok)
+                    ev(["free", now(), hook, m, tag, True])
+                except Exception:  # noqa: BLE001
+                    ev(["free", now(), hook, m, tag, False])
+                continue
             try:
                 ms[m].op(tag, ok)
                 ev(["ok", now(), hook, m, tag])
             except DemeterError as e:
                 ev(["rej", now(), hook, m, tag, "is not open" in str(e)])
-            except (ValueError, AssertionError):
+            except Exception:  # noqa: BLE001   (the market's own refusal)
                 ev(["rej", now(), hook, m, tag, False])
 
     # update() scripts are keyed by row; ProbeMarket keys them by time: fill lazily from before_bar
@@ -226,7 +233,7 @@ def phase(e):
     k = e[0]
     if k == "set":
         return {0: 0, 1: 3, 2: 10}[e[3]]
-    if k in ("ok", "rej"):
+    if k in ("ok", "rej", "free"):
         return PHASE_OF_HOOK[e[2].split(":")[0]]
     return {"initialize": 1, "before": 4, "fire": 6, "open": 7, "on": 8, "update": 11, "uact": 11, "after": 12, "row": 14, "notify": 15,
             "finalize": 16}[k]
@@ -295,7 +302,7 @@ def oracle(ctx, case, obs, rep):
     # every accepted operation / update record yields one action stamped with its bar, delivered exactly once at the end of that bar
     recorded = []
     for e in ev:
-        if e[0] == "ok":
+        if e[0] == "ok" or (e[0] == "free" and e[5]):
             recorded.append([e[4], e[1], e[3]])
         elif e[0] == "uact":
             recorded.append([e[3], e[1], e[2]])
@@ -349,10 +356,10 @@ def check_case(ctx: Ctx, case, reqs=None):
     ev = obs["events"]
     if obs["err"] is None:
         oracle(ctx, case, obs, rep)
-    phases = sorted({e[2].split(":")[0] for e in ev if e[0] in ("ok", "rej")})
+    phases = sorted({e[2].split(":")[0] for e in ev if e[0] in ("ok", "rej", "free")})
     tag = (f"i{case['interval']}{'' if resampled(case['istr']) else 'raw'}:{kinds}:bars{min(3, sum(1 for e in ev if e[0] == 'before').bit_length() // 3)}:"
            f"{'/'.join(phases) or 'noops'}:{'set2' if any(e[0] == 'set' and e[3] == 2 for e in ev) else '-'}:"
-           f"{'closed' if any(e[0] == 'rej' and e[5] for e in ev) else '-'}:{'uact' if any(e[0] == 'uact' for e in ev) else '-'}:"
+           f"{'closed' if any(e[0] == 'rej' and e[5] for e in ev) else '-'}:{'free' if any(e[0] == 'free' for e in ev) else '-'}:{'uact' if any(e[0] == 'uact' for e in ev) else '-'}:"
            f"{'fire' if any(e[0] == 'fire' for e in ev) else '-'}:{obs['err'] or 'ok'}")
     ctx.case(tag, {"interval": case["istr"], "markets": [(m["kind"], len(m["times"])) for m in case["markets"]], "events": len(ev), "err": obs["err"]})
     if obs["err"] is not None:
